@@ -66,20 +66,27 @@ Print Assumptions C16_gate_after_history.
 
 (** ... and the same at every position inside a block: after the blocks [bs] and the transactions [pre] that
     precede the request in its own block, the outcome recorded for the request is sound for the records stored
-    at that very position (the view is refreshed after every transaction, not at the end of the block) *)
+    at that very position (the view is refreshed after every transaction, not at the end of the block); a
+    request that passes the proof stage - which looks at the state the block started from - gets exactly the
+    gate's answer on those records *)
 Theorem C16_gate : forall f bs pre src dst,
   d_cache_failed_events f = false -> d_cache_deferred f = false ->
   let s0 := run_ops f st0 (List.concat bs) in
   let s := run_ops f s0 pre in
-  exists oc, r_out (step_at f (cache s0) s (OIbtp src dst)) = outcome_code oc /\ gate_sound (svcs s) src dst oc = true.
+  exists oc, r_out (step_at f s0 s (OIbtp src dst)) = outcome_code oc /\ gate_sound (svcs s) src dst oc = true /\
+             (proof_ok s0 src = true -> oc = gate (fun i => sget i (svcs s)) src dst).
 Proof. exact gate_in_block. Qed.
 Print Assumptions C16_gate.
 
-(** with the view refreshed per transaction, a history made of blocks is the history of its transactions *)
-Theorem C16_blocks_flat : forall f, d_cache_deferred f = false ->
-  forall bs s, trace_blocks f s bs = trace f s (List.concat bs).
-Proof. exact trace_blocks_flat. Qed.
-Print Assumptions C16_blocks_flat.
+(** blocks matter to requests only: the state after a history of blocks is the state after its transactions in
+    a row, and a history whose blocks hold one transaction each is the plain history *)
+Theorem C16_blocks_state : forall f bs s,
+  fold_left (fun s b => snd (trace_block f s s b)) bs s = run_ops f s (List.concat bs).
+Proof. exact blocks_state. Qed.
+Print Assumptions C16_blocks_state.
+Theorem C16_blocks_singletons : forall f h s, trace_blocks f s (map (fun o => [o]) h) = trace f s h.
+Proof. exact trace_blocks_singletons. Qed.
+Print Assumptions C16_blocks_singletons.
 
 (** logged out stays logged out, for every flag setting and every continuation of the history *)
 Theorem C16_logout_forever : forall f h s, forb_rel s (run_ops f s h).
